@@ -160,6 +160,14 @@ def _gen_box(rng):
         perm = rng.choice([[1, 2, 0], [2, 0, 1], [0, 2, 1]])
         sg = [rng.choice([1.0, -1.0]) for _ in range(3)]
         vects = [[sg[j] * v[perm[j]] for j in range(3)] for v in vects]
+    elif rng.random() < 0.2:    # no zero entry, either handedness: |entries| <= 8, 8 <= |det|, nothing negligible
+        for _ in range(200):
+            m = [[cm.dyadic(rng, -8, 8, 2) for _ in range(3)] for _ in range(3)]
+            (a, b, c), (d, e, f), (g, h, i) = m
+            det = a * (e * i - f * h) - b * (d * i - f * g) + c * (d * h - e * g)
+            if abs(det) >= 8 and all(abs(x) >= 0.25 for row in m for x in row):
+                vects = m
+                break
     origin = [0.0, 0.0, 0.0] if rng.random() < 0.25 else [cm.dyadic(rng, -4, 4, 2) for _ in range(3)]
     return {'vects': vects, 'origin': origin}
 
@@ -254,6 +262,7 @@ def gen_sys(rng):
             'natoms': natoms, 'props': props,
             'call': rng.choice(['prop_unit', 'prop_unit', 'lists', 'default']),
             'io': rng.choice(['str', 'str', 'path', 'fileobj']),
+            'fmtcase': rng.choice([None, None, None, 'upper', 'title']), 'indent': rng.choice([None, None, None, 1, 4]),
             # the system as one of several entries of a larger record: load(..., key=, index=)
             'record': rng.choice([None, None, {'key': 'atomic-system', 'index': 1}, {'key': 'final-system', 'index': 0},
                                   {'key': 'relaxed-system', 'index': 2}])}
@@ -788,23 +797,27 @@ def _run_real(case, r) -> RealRun:
         r.write_error = f'{type(e).__name__}: {e}'
         return r
     r.tree = model
+    # the format name in the spelling of the case ('json', 'JSON', 'Xml', ...) and an optional indentation
+    fmt = {'upper': via.upper(), 'title': via.title()}.get(case.get('fmtcase'), via)
+    if k == 'sys' and case.get('indent') is not None:
+        fmtkw = dict(fmtkw, indent=case['indent'])
     try:
         if k == 'sys' and via != 'tree' and case.get('io', 'str') != 'str':
             # dump(f=...) : format taken from the file extension (path) or given (file object)
             import os
             import tempfile
-            fd, path = tempfile.mkstemp(suffix='.' + via, prefix='c10_')
+            fd, path = tempfile.mkstemp(suffix='.' + (fmt if case['io'] == 'path' else via), prefix='c10_')
             os.close(fd)
             r.extra['path'] = path
             if case['io'] == 'path':
-                s.dump('system_model', f=path, box_unit=case['box_unit'], **fmtkw)
+                s.dump('system_model', f=path, box_unit=case['box_unit'], **fmtkw)   # format from the extension
             else:
                 with open(path, 'w', encoding='UTF-8') as fp:
-                    s.dump('system_model', f=fp, format=via, box_unit=case['box_unit'], **fmtkw)
+                    s.dump('system_model', f=fp, format=fmt, box_unit=case['box_unit'], **fmtkw)
             with open(path, encoding='UTF-8') as fp:
                 text = fp.read()
         elif k == 'sys' and via != 'tree':
-            text = s.dump('system_model', format=via, box_unit=case['box_unit'], **fmtkw)
+            text = s.dump('system_model', format=fmt, box_unit=case['box_unit'], **fmtkw)
         else:
             text = _to_text(model, via, wrap)
         r.extra['text'] = text if isinstance(text, str) else None
